@@ -17,6 +17,9 @@ DEADLOCK_TEXT = z3.StringVal("concurrent remote_exec would cause deadlock for ma
 TASK = TUP(STR, OPT(STR), OPT(STR), ANY)
 
 
+BODY_OUTCOME = {"Exception": 1, "KeyboardInterrupt": 2, "SystemExit": 3, "EOFError": 4}
+
+
 def declare(w):
     """requires contracts.pool.declare(w) first (Event, ExecModel, WorkerPool)."""
     s = w.schema
@@ -54,6 +57,8 @@ def declare(w):
                 s2 = st.fork()
                 e = ExcV(cls, (), None, origin=kind)
                 e.exact, e.excluded = exact, (("EOFError",) if cls == "Exception" else ())
+                if "self" in s2.locals and s2.locals["self"].ty == REF("WorkerGateway"):
+                    ex.set_field(s2, s2.locals["self"], "$body_outcome", core.mk_int(BODY_OUTCOME[cls]))    # ghost: how the remote body ended
                 sink.append((s2, ("raise", e)))
         return h_
 
@@ -78,11 +83,23 @@ def declare(w):
     def index_any(ex, base, idx, st, sink, node):
         ok = st.fork()
         yield ok, core.fresh(ANY, "item")
-        ex.raise_(st.fork(), sink, "KeyError", origin="namespace lookup")
+        s2 = st.fork()
+        if "self" in s2.locals and s2.locals["self"].ty == REF("WorkerGateway"):
+            ex.set_field(s2, s2.locals["self"], "$body_outcome", core.mk_int(BODY_OUTCOME["Exception"]))    # the named function is not in the namespace: a failure of the body
+        ex.raise_(s2, sink, "KeyError", origin="namespace lookup")
 
     w.call_hooks[("index", "any")] = index_any
     w.attr_hooks[("BaseGateway", "_geterrortext")] = lambda ex, st, recv: SV(FUNCT, ExternD("geterrortext"))
-    w.externals["geterrortext"] = lambda ex, args, kwargs, st, sink, node: iter([(st, core.fresh(STR, "errortext"))])
+
+    def geterrortext(ex, args, kwargs, st, sink, node):
+        txt = core.fresh(STR, "errortext")
+        if "self" in st.locals and st.locals["self"].ty == REF("WorkerGateway"):
+            ex.set_field(st, st.locals["self"], "$errortext", txt)     # ghost: the formatted type/message/traceback of the exception
+        yield st, txt
+
+    w.externals["geterrortext"] = geterrortext
+    s.declare("WorkerGateway", "$body_outcome", INT)
+    s.declare("WorkerGateway", "$errortext", STR)
 
     # ---- executetask ----------------------------------------------------------------------------------------
     def chan(a):
@@ -96,12 +113,24 @@ def declare(w):
         e = h("WorkerGateway", a.self, "_executetask_complete")
         return z3.Or(e == 0, ev_set(h2, e))   # whenever a body has finished - return, exception or interrupt - the completion event is set
 
-    EMOD = lambda a, h: [("Channel", chan(a), f) for f in ("_executing", "$closecalls", "$closed_with")] + [("Event", h("WorkerGateway", a.self, "_executetask_complete"), "$set")]
+    def error_reported(a, h, h2):
+        """C07: a body that raised (anything but EOFError, which means "receiving finished", and KeyboardInterrupt, reported as interrupt) is reported to the
+        peer: the channel is closed with the text _geterrortext made of the exception - unless the connection is gone; a body that returned is closed plainly"""
+        c = chan(a)
+        out, cw = h2("WorkerGateway", a.self, "$body_outcome"), h2.sv("Channel", c, "$closed_with")
+        fin = h("ChannelFactory", h("BaseGateway", h("Channel", c, "gateway"), "_channelfactory"), "finished")
+        raised = z3.Or(out == BODY_OUTCOME["Exception"], out == BODY_OUTCOME["SystemExit"])
+        return [z3.Implies(z3.And(raised, z3.Not(fin)), core.eq_sv(cw, core.mk_opt_some(SV(STR, h2("WorkerGateway", a.self, "$errortext"))))),
+                z3.Implies(z3.Or(out == 0, out == BODY_OUTCOME["EOFError"]), cw.v[0])]
+
+    EMOD = lambda a, h: [("Channel", chan(a), f) for f in ("_executing", "$closecalls", "$closed_with")] + [("Event", h("WorkerGateway", a.self, "_executetask_complete"), "$set"),
+                                                                                                         ("WorkerGateway", a.self, "$body_outcome"), ("WorkerGateway", a.self, "$errortext")]
     w.add(Contract(f"{GB}:WorkerGateway.executetask", {"self": REF("WorkerGateway"), "item": TUP(REF("Channel"), TASK)},
                    requires=lambda a, h: [("channel-not-none", chan(a) != 0), ("not-executing-yet", z3.Not(h("Channel", chan(a), "_executing"))),
-                                          ("channel-has-gateway", z3.And(h("Channel", chan(a), "gateway") != 0, h("BaseGateway", h("Channel", chan(a), "gateway"), "_channelfactory") != 0))],
+                                          ("channel-has-gateway", z3.And(h("Channel", chan(a), "gateway") != 0, h("BaseGateway", h("Channel", chan(a), "gateway"), "_channelfactory") != 0)),
+                                          ("ghost-no-body-outcome-yet", h("WorkerGateway", a.self, "$body_outcome") == 0)],
                    modifies=EMOD,
-                   cases=[Case("finished", post=lambda a, h, h2, r: closed_once(a, h, h2) + [completion_signalled(a, h, h2)]),
+                   cases=[Case("finished", post=lambda a, h, h2, r: closed_once(a, h, h2) + [completion_signalled(a, h, h2)] + error_reported(a, h, h2)),
                           Case("interrupted", "raise", "KeyboardInterrupt",
                                post=lambda a, h, h2, e: closed_once(a, h, h2) + [completion_signalled(a, h, h2),
                                                                                   core.eq_sv(h2.sv("Channel", chan(a), "$closed_with"), mk_str(INTERRUPT_TEXT))])],
